@@ -4,7 +4,7 @@ from fractions import Fraction
 from sa import generic
 from sa.algebra import Rat, Translator, AlgebraError, parse_expr
 from sa.extract import single_assignments, inline, names_in
-from sa.srcmodel import own_nodes, dotted, positional_params, bind_call
+from sa.srcmodel import func_params, own_nodes, dotted, positional_params, bind_call
 from sa.stencil import swept_component, _slice_start
 from sa.report import AnalysisError
 from rules import c20
@@ -21,7 +21,9 @@ EXPLANATION = (
     "population r from row r with column c multiplying grid c on axis c; inbreeding uses alpha=g(1-F)/F, beta=(1-g)(1-F)/F with "
     "its own F and ploidy per axis; (3) dispatch - every (ndim, options) combination binds the result or raises (R-EXH/R-DEF), "
     "arguments are forwarded as ns[k], xxs[k] in order, extrap_x and pop_ids are set on every returning path, F=0 delegates to "
-    "from_phi; (4) R-KEY on the beta-difference memo. Equality with an independent quadrature is not decided.")
+    "from_phi; (4) R-KEY on the beta-difference memo and on the beta-binomial / multinomial / partition memos of the inbreeding path; "
+    "(5) R-LIN - every implementation applies only linear operations to the density (taint classes U/L/N, interprocedural). "
+    "Equality with an independent quadrature is not decided.")
 TECHNIQUE = "stencil normal forms of slice arithmetic + sibling templates of 15 implementations + dispatch exhaustiveness / definite assignment"
 DECLINED = ["equality with an independent quadrature", "mass / projection consistency as numerical statements", "beta-binomial normalisation", "effect of the 1e-16 grid clamp"]
 
@@ -438,6 +440,14 @@ def run(rep, prog, tier):
     check_direct(rep, prog, m)
     check_admix(rep, prog, m)
     check_inbreeding(rep, prog, m)
+    # memo tables on the inbreeding sampling path: the key must determine the cached value (rule shared with C20)
+    for q, cache in (('BetaBinomln', '_BetaBinomln_cache'), ('multinomln', '_multinomln_cache'), ('cached_part', '_part_cache'), ('cached_part_precalc', '_part_precalc_cache')):
+        c20.rule_key_full(rep, prog, 'dadi.Numerics', q, cache)
     check_dispatch(rep, prog, m)
+    # sampling is a linear functional of the density: no clamp, absolute value, threshold, product of two density terms ...
+    from sa.linear import rule_lin
+    for q, fn in sorted(m.funcs.items()):
+        if 'from_phi' in q and 'phi' in func_params(fn):
+            rule_lin(rep, m, fn, {'phi'}, prog=prog, what='the spectrum is a linear function of the density')
     rep.floor('R-ALG', 35)
     rep.floor('R-IDX', 40)
